@@ -25,7 +25,11 @@ CONFIG = {
                    'fix-point reference; exhaustive for the <=3-state/2-atom '
                    'scope in the thorough tier, sampled beyond. Held = no '
                    'observed execution deviated; nothing is claimed about '
-                   'inputs not run.'),
+                   'inputs not run.'
+                   ' Also: histories that modify one structure in place between'
+                   ' queries, families of subformulas that differ only by a'
+                   ' trailing operand, a stream of 6-9 state structures with'
+                   ' dense operands for EG/AF/AU/ER, mixed-type state names.'),
     'level_note': ('Trusted base: vmon/refsem.py ctl() (cross-checked against '
                    'the product-based refsem.star on every run), the neutral '
                    'form conversion, CPython. Class representatives stand for '
